@@ -7,6 +7,7 @@ import (
 	"math/rand/v2"
 	"sort"
 	"strings"
+	"sync"
 	"time"
 
 	"github.com/projecteru2/core/engine"
@@ -119,6 +120,18 @@ func (storeH) Generate(property string, seed uint64, tier string) *Case {
 		}
 		op.Labels = lbl()
 	}
+	if property == "C24" {
+		for k := 0; k < 1+g.IntN(2); k++ {
+			w := storeOp{Kind: "watch_status", App: pick(g, apps), Entry: pick(g, entries), Node: pick(g, nodes)}
+			switch g.IntN(4) {
+			case 0:
+				w.Node = ""
+			case 1:
+				w.Entry, w.Node = "", ""
+			}
+			ops = append(ops, mustJSON(w))
+		}
+	}
 	if property == "C13" {
 		// the marker protocol of deployments (see storeh13.go), mixed with plain records
 		n = 3 + g.IntN(5)
@@ -204,7 +217,12 @@ func (storeH) Generate(property string, seed uint64, tier string) *Case {
 			case "add_workload":
 				op.Flag = false
 			case "add_pod", "remove_pod", "update_node", "set_node_status", "nodes_by_pod", "get_workloads":
-				mkList(&op) // more queries, fewer operations that cannot matter here
+				// more queries and status reports, fewer operations that cannot matter here
+				if g.IntN(2) == 0 {
+					mkList(&op)
+				} else {
+					op.Kind, op.TTL, op.Val = "set_workload_status", []int64{0, 30}[g.IntN(2)], g.IntN(2) == 0
+				}
 			}
 		}
 		ops = append(ops, mustJSON(op))
@@ -247,6 +265,13 @@ func remaining(s *stStatus) time.Duration {
 
 func newStModel() *stModel {
 	return &stModel{Pods: map[string]bool{}, Nodes: map[string]string{}, Workloads: map[string]*stWorkload{}, NodeSt: map[string]*stStatus{}, WlSt: map[string]*stStatus{}, Proc: map[string]bool{}, Count: map[string]int{}}
+}
+
+// stWatch is one open status stream and what it has delivered.
+type stWatch struct {
+	app, entry, node string
+	mu               sync.Mutex
+	got              []string
 }
 
 type stBackend struct {
@@ -320,6 +345,7 @@ func (storeH) Execute(c *Case, res *Result) {
 		})
 		enginefactory.ResetEngineCacheForVerif(cfg, nil)
 		backends := []*stBackend{{"etcd", merc, newStModel()}, {"redis", redi, newStModel()}}
+		var watches []*stWatch
 		defer func() {
 			for _, k := range sortedKeys(backends[0].model.Count) {
 				res.Probes[k] += backends[0].model.Count[k]
@@ -341,13 +367,63 @@ func (storeH) Execute(c *Case, res *Result) {
 				rsrv.Sync()
 				res.Probes["advance"]++
 			}
+			if op.Kind == "watch_status" {
+				// C24, "streaming their status": a status stream on the etcd store (the Redis
+				// one needs keyspace notifications) that stays open for the rest of the history
+				if prop == "C24" && len(watches) < 2 {
+					wctx, cancel := context.WithCancel(ctx)
+					defer cancel()
+					sw := &stWatch{app: op.App, entry: op.Entry, node: op.Node}
+					ch := merc.WorkloadStatusStream(wctx, op.App, op.Entry, op.Node, nil)
+					go func() {
+						for m := range ch {
+							sw.mu.Lock()
+							sw.got = append(sw.got, m.ID)
+							sw.mu.Unlock()
+						}
+					}()
+					watches = append(watches, sw)
+					res.Probes["status_stream_opened"]++
+					sim.Settle()
+				}
+				continue
+			}
 			var outs [2]string
 			var errs [2]string
 			pre := situationOf(backends[0].model, op)
+			// whose status is about to be reported, under which names (as the store keys it)
+			stApp, stEntry, stNode := op.App, op.Entry, op.Node
+			if old, ok := backends[0].model.Workloads[op.ID]; ok {
+				stApp, stEntry, stNode = old.App, old.Entry, old.Node
+			}
+			var seenBefore []int
+			for _, sw := range watches {
+				sw.mu.Lock()
+				seenBefore = append(seenBefore, len(sw.got))
+				sw.mu.Unlock()
+			}
 			for k, b := range backends {
 				errs[k], outs[k] = applyStoreOp(ctx, b, op, viol, res)
 			}
 			res.OpsRun++
+			if len(watches) > 0 {
+				sim.Settle() // events of this operation are delivered before the next one starts
+				for wi, sw := range watches {
+					sw.mu.Lock()
+					fresh := append([]string{}, sw.got[seenBefore[wi]:]...)
+					sw.mu.Unlock()
+					if op.Kind != "set_workload_status" || len(fresh) == 0 {
+						continue
+					}
+					res.Probes["status_stream_event_checked"]++
+					match := sw.app == "" || (sw.app == stApp && (sw.entry == "" || (sw.entry == stEntry && (sw.node == "" || sw.node == stNode))))
+					for _, id := range fresh {
+						if id != op.ID || !match {
+							viol("C24", "status-stream-not-isolated", "etcd:"+backends[0].model.kindOfNames(sw.app, sw.entry, sw.node, stApp, stEntry, stNode), fmt.Sprintf("the status stream for (app %q, entry %q, node %q) delivered an event for workload %s whose status was reported under (app %q, entry %q, node %q)", sw.app, sw.entry, sw.node, id, stApp, stEntry, stNode))
+						}
+					}
+				}
+			}
 			// ---- C23: same outcome on both backends ----
 			// Only the first divergence of a history is reported: afterwards the two stores
 			// legitimately hold different data. Its signature names the situation (from the
